@@ -49,6 +49,7 @@ type Program struct {
 	funcs     []*Func
 	funcsOnce bool
 	flat      map[*Func]*Func
+	pobjs     map[*Func][]paramObj
 	// Opaque: helpers Flatten must keep as calls (set by the rules package)
 	Opaque func(*Func) bool
 	// OpaqueGeneral: helpers that may be inlined in the exact forms only, not in the general (labelled switch) form
